@@ -13,6 +13,12 @@ from engine.loader import AnalysisError, src, walk_own
 
 PID = "C10"
 EXPLANATION = (
+    "Two analyses. (B, rules R10.2-R10.4) Abstract evaluation on fermionic arrays of shaped tokens (Z2, U1, + Z2Z2, U1U1, Z4 thorough; "
+    "ranks 1-4; direction patterns; even and odd parity with an odd-position label; pending signs; full and sparse): conj applied twice "
+    "and dagger applied twice return the original (synchronised blocks, indices, charge, labels); dagger(phase_dual=p) equals "
+    "conj(phase_dual=p) followed by the fermionic transpose to reversed axes for both p; the contraction of x.conj(phase_dual=p) with x "
+    "over all axes, in either operand order and in every contraction strategy, normalises to the sum over all stored blocks of "
+    "tensordot(conj(block), block) with sign +1 - the squared norm - whenever every index is ket-like or p is True. (A, rule R10.1) "
     "Sibling agreement (Engler-style cross-check) of the two implementations of fermionic conjugation. For "
     "FermionicArray.conj and FermionicArray.dagger the checker extracts, by def-use over their ASTs, (a) the new total charge, "
     "(b) the new odd-position labels, (c) the condition under which the odd global sign is taken, (d) which legs the dual-leg "
@@ -169,7 +175,7 @@ def check_siblings(prog, ctx):
 
 
 def check_abelian(prog, ctx):
-    rid = "R10.2"
+    rid = "R10.0"
     f = prog.func("symmray.abelian_core:AbelianArray.dagger")
     rets = [n for n in walk_own(f.node) if isinstance(n, ast.Return)]
     ok = len(rets) == 1 and src(rets[0].value) == "self.conj(inplace=inplace).transpose(inplace=True)"
@@ -194,6 +200,13 @@ def check_abelian(prog, ctx):
 def run(prog, ctx):
     ctx.rule("R10.1", "FermionicArray.conj and .dagger agree on (a) charge, (b) labels, (c) odd global sign condition, (d) the set of "
              "legs selected by the dual-leg option (normalised to original direction), (e) exactly one kind of reversal")
-    ctx.rule("R10.2", "AbelianArray.dagger == conj then transpose; H and T use the defaults")
+    ctx.rule("R10.0", "AbelianArray.dagger == conj then transpose; H and T use the defaults")
+    ctx.rule("R10.2", "abstract evaluation: conj applied twice and dagger applied twice return the original array")
+    ctx.rule("R10.3", "abstract evaluation: dagger(phase_dual=p) equals conj(phase_dual=p) followed by the fermionic reversal of the axes")
+    ctx.rule("R10.4", "abstract evaluation: x.conj(phase_dual=p) contracted with x over all axes (either order, every strategy) is the sum of "
+                      "|block|^2 over all stored blocks whenever every index is ket-like or p is True (even and odd parity)")
     check_siblings(prog, ctx)
     check_abelian(prog, ctx)
+    from rules.sem_adjoint import check_adjoint
+
+    check_adjoint(prog, ctx)
